@@ -116,6 +116,23 @@ pub enum Edit {
     ResignGenesisAdv,
     /// force the hash field (applied after the optional re-hash)
     HashField(HashRef),
+    /// INSIDER move: `members` (indices into the LEGITIMATE signer set `set`, a strict subset) sign
+    /// the current signed_message. `greedy`: they claim every lottery index (signatures made with
+    /// phi_f = 1, which costs an insider nothing: its BLS signature is the same for all indices);
+    /// otherwise they play fair and the move only produces a signature if they reach k honestly.
+    /// The certificate keeps the honest Merkle commitment of `set` and its parameters; the total
+    /// stake carried by the aggregate key becomes `total_stake`.
+    InsiderSign { set: usize, members: Vec<usize>, greedy: bool, total_stake: TotalStake },
+}
+
+#[derive(Clone, Debug, Serialize, Deserialize, PartialEq)]
+pub enum TotalStake {
+    /// unaltered key
+    Keep,
+    /// smallest member stake / divisor (at least 1): every claimed lottery becomes a "win"
+    ShrunkBy(u64),
+    /// honest total stake * factor
+    EnlargedBy(u64),
 }
 
 #[derive(Clone, Debug, Serialize, Deserialize, PartialEq)]
@@ -190,6 +207,19 @@ pub struct Workshop {
     pub by_content: BTreeMap<String, usize>,
     /// number of STM signing operations performed (cost accounting)
     pub signings: u64,
+}
+
+/// Same Merkle commitment, another total stake (edited in the key's JSON encoding).
+fn with_total_stake(
+    avk: &ProtocolAggregateVerificationKeyForConcatenation,
+    total_stake: u64,
+) -> ProtocolAggregateVerificationKeyForConcatenation {
+    let json = hex::decode(avk.to_json_hex().expect("avk hex")).expect("hex");
+    let mut value: serde_json::Value = serde_json::from_slice(&json).expect("avk json");
+    assert!(value.get("total_stake").is_some_and(|v| v.is_u64()), "harness bug: AVK JSON layout changed");
+    value["total_stake"] = serde_json::json!(total_stake);
+    let forged = hex::encode(serde_json::to_vec(&value).expect("json"));
+    ProtocolAggregateVerificationKeyForConcatenation::try_from(forged.as_str()).expect("forged avk decodes")
 }
 
 fn fixed_time(offset_s: i64) -> DateTime<Utc> {
@@ -485,7 +515,84 @@ impl Workshop {
                 cert.signature = CertificateSignature::GenesisSignature(sig);
             }
             Edit::HashField(_) => {}
+            Edit::InsiderSign { set, members, greedy, total_stake } => {
+                let sb = self.set(*set);
+                let n = sb.fixture.signers_fixture().len();
+                assert!(
+                    !members.is_empty() && members.len() < n && members.iter().all(|i| *i < n),
+                    "harness bug: an insider coalition is a strict, non-empty subset of the signer set"
+                );
+                if let Some(ms) = self.insider_sign(&sb, members, *greedy, &cert.signed_message.clone()) {
+                    let entity = cert.signed_entity_type();
+                    cert.signature = CertificateSignature::MultiSignature(entity, ms);
+                }
+                let honest_total: u64 = self.material.sets[*set].parties.iter().map(|p| p.1).sum();
+                let smallest = members
+                    .iter()
+                    .map(|i| sb.fixture.signers_fixture()[*i].signer_with_stake.stake)
+                    .min()
+                    .unwrap_or(1);
+                let forged_total = match total_stake {
+                    TotalStake::Keep => None,
+                    TotalStake::ShrunkBy(d) => Some((smallest / (*d).max(1)).max(1)),
+                    TotalStake::EnlargedBy(f) => Some(honest_total.saturating_mul(*f)),
+                };
+                cert.aggregate_verification_key = match forged_total {
+                    None => sb.avk_concat.clone(),
+                    Some(t) => with_total_stake(&sb.avk_concat, t),
+                };
+                cert.metadata.protocol_parameters = self.material.sets[*set].params();
+                cert.metadata.signers = sb.parties.clone();
+            }
         }
+    }
+
+    /// Multi-signature of a coalition of registered signers of `sb` (memoised like `multi_sign`).
+    fn insider_sign(
+        &mut self,
+        sb: &SetBuilt,
+        members: &[usize],
+        greedy: bool,
+        message: &str,
+    ) -> Option<ProtocolMultiSignature> {
+        let memo_key = (format!("{}|insider{members:?}|{greedy}", sb.key), message.to_string());
+        if let Some(known) = signature_table().lock().unwrap().get(&memo_key) {
+            return known.clone();
+        }
+        self.signings += 1;
+        let honest_params = sb.fixture.protocol_parameters();
+        let params = if greedy {
+            ProtocolParameters::new(honest_params.k, honest_params.m, 1.0)
+        } else {
+            honest_params
+        };
+        let all = sb.fixture.signers_fixture();
+        let mut singles = Vec::new();
+        for i in members {
+            let signer = all[*i].clone().try_new_with_protocol_parameters(params.clone()).ok()?;
+            if let Some(sig) = signer.protocol_signer.sign(message.as_bytes()) {
+                singles.push(sig);
+            }
+        }
+        let clerk = ProtocolClerk::new_clerk_from_closed_key_registration(
+            &params.clone().into(),
+            &all[0].protocol_closed_key_registration,
+        );
+        let res: Option<ProtocolMultiSignature> = clerk
+            .aggregate_signatures_with_type(
+                &singles,
+                message.as_bytes(),
+                AggregateSignatureType::Concatenation,
+                AncillaryProofInput::dummy(),
+            )
+            .ok()
+            .map(|(ms, _)| ms.into());
+        let mut t = signature_table().lock().unwrap();
+        if t.len() > MEMO_LIMIT {
+            t.clear();
+        }
+        t.insert(memo_key, res.clone());
+        res
     }
 
     /// Build the certificate described by `item` and register it as #id (returned).
